@@ -540,7 +540,10 @@ func (a *AggregationProcess) aggregateRecords(incomingRecord, existingRecord ent
 	}
 	for _, element := range a.aggregateElements.NonStatsElements {
 		if ieWithValue, _, exist := incomingRecord.GetInfoElementWithValue(element); exist {
-			existingIeWithValue, _, _ := existingRecord.GetInfoElementWithValue(element)
+			existingIeWithValue, _, existInExisting := existingRecord.GetInfoElementWithValue(element)
+			if !existInExisting {
+				return fmt.Errorf("element with name %v in nonStatsElements not present in the existing record", element)
+			}
 			switch ieWithValue.GetName() {
 			case "flowEndSeconds":
 				// Flow end timestamp is already updated.
